@@ -462,6 +462,9 @@ func Main(t *testing.T, h Harness) {
 				sigs[run.signature()] = struct{}{}
 			}
 			fmt.Fprintf(&runlog, "%d %s %s\n", runIndex, run.eventHash(), verdictOf(run))
+			if d := os.Getenv("VERIF_DUMP_EVENTS"); d != "" {
+				os.WriteFile(filepath.Join(d, fmt.Sprintf("events-%d.txt", runIndex)), []byte(strings.Join(run.Events(), "\n")), 0o666)
+			}
 			if len(res.Samples) < 3 && h.Describe != nil && (run.NonTrivial || runIndex > 20) {
 				ev := run.Events()
 				if len(ev) > 60 {
